@@ -27,8 +27,9 @@ def race_family():
         # 'in A 0' starts a NEW run and leaves the replicated one untouched: only a snapshot can bring the old run to B
         for work in (['in A 0'], ['in A 1'], ['in A 0', 'in A 4'], []):
             for point in ['lock', 'send:B'] + (['send:C'] if 'C' in names else []):
-                for early in (False, True):
-                    ops = list(pre) + ['restart B', 'pass B'] + work
+                # `wait` puts the survivor in the SYNC, PING or RESYNC period towards B when the announcement races its pass
+                for early, wait in ((False, 0), (True, 0), (False, 31), (False, 61)):
+                    ops = list(pre) + ([f'tick {wait}'] if wait else []) + ['restart B', 'pass B'] + work
                     # B's first message (RESYNC + restart flag) is in flight towards A; A's pass overlaps its arrival
                     ops += (['pass A'] if early else []) + [f'passi A {point} B', 'del A B', 'del A B', 'tick 1', 'pass A', 'del A B', 'heal']
                     yield {'names': names, 'phens': gc.CONFLICT, 'cache': 1000, 'ops': ops}
@@ -92,7 +93,7 @@ def search(ctx: Ctx) -> Result:
 
 
 SPEC = PropSpec(
-    prop='C07', translators=[], run=run, search=search,
+    prop='C07', translators=['modes'], run=run, search=search,
     rule='race family: a survivor with 0-1 pending changes, the peer restarts, and its announcement is handled by the survivor\'s incoming '
          'thread at every atomic-step boundary of the survivor\'s outgoing pass (after the decision phase / during each send), 2 and 3 '
          'instances; plus seeded schedules (10-36 ops) with one restart at a random position and a third of the survivors\' later passes '
